@@ -1416,7 +1416,9 @@ class Array:
                 perms[ax] = np.arange(self.shape[ax], dtype=np.intp)
         if len(axes) == 0:  # nothing to sort or bunch
             return tuple(perms), self.copy(deep=False)
-        cp = self.combine_legs(axes, pipes=pipes)
+        cp = self.copy(deep=False)
+        cp._labels = [None] * self.rank  # intermediate pipe labels like '(a)' could clash with existing labels
+        cp = cp.combine_legs(axes, pipes=pipes)
         cp._labels = self._labels[:]  # reset labels
         # ... and convert pipes back to leg charges
         for ax in axes:
